@@ -10,6 +10,7 @@ import (
 	"fmt"
 	"net"
 	"strings"
+	"sync"
 	"time"
 
 	"verif/htlab/internal/core"
@@ -68,12 +69,14 @@ type scenario struct {
 	Ports  []portEntry `json:"ports"`
 	Probes []probe     `json:"probes"`
 	Socket bool        `json:"socket"`
+	Conc   bool        `json:"conc"` // all probes at once, stubs read slowly
 }
 
 func mkScenario(seed int64, idx int, socket bool) scenario {
 	r := core.NewRng(seed, "C08", idx)
 	var sc scenario
 	sc.Socket = socket
+	sc.Conc = idx >= 700000
 	basePort := 8000
 	if socket {
 		basePort = 21000 + (idx%400)*4
@@ -143,11 +146,15 @@ func config(sc scenario) string {
 		lt = "socket"
 	}
 	fmt.Fprintf(&b, "[listener]\ntype=%q\n\n[channel.cap0]\ntype=\"lab-capture\"\nid=\"cap0\"\n\n[[filter]]\nchannel=[\"cap0\"]\n\n", lt)
+	slow := ""
+	if sc.Conc {
+		slow = "slow_ms=3\n"
+	}
 	for _, s := range pool {
 		if s.Prefix == "-" {
-			fmt.Fprintf(&b, "[service.%s]\ntype=\"lab-stub-plain\"\nname=%q\n\n", s.Name, s.Name)
+			fmt.Fprintf(&b, "[service.%s]\ntype=\"lab-stub-plain\"\nname=%q\n%s\n", s.Name, s.Name, slow)
 		} else {
-			fmt.Fprintf(&b, "[service.%s]\ntype=\"lab-stub-prefix\"\nname=%q\nprefix=%q\n\n", s.Name, s.Name, hex.EncodeToString([]byte(s.Prefix)))
+			fmt.Fprintf(&b, "[service.%s]\ntype=\"lab-stub-prefix\"\nname=%q\nprefix=%q\n%s\n", s.Name, s.Name, hex.EncodeToString([]byte(s.Prefix)), slow)
 		}
 	}
 	for _, e := range sc.Ports {
@@ -253,6 +260,7 @@ type callObs struct {
 type params struct {
 	Offset int  `json:"offset"`
 	Socket bool `json:"socket"`
+	Conc   bool `json:"conc"`
 }
 
 func (prop) Plan(tier string, seed int64) []core.Batch {
@@ -268,6 +276,11 @@ func (prop) Plan(tier string, seed int64) []core.Batch {
 	}
 	p, _ := json.Marshal(params{Offset: 500000, Socket: true})
 	plan = append(plan, core.Batch{Name: "socket", N: sock, Params: p, Timeout: 900})
+	// the same kind of tables with all probe connections open at once and services that read slowly
+	for c := 0; c < 2; c++ {
+		p, _ = json.Marshal(params{Offset: 700000 + c*per, Conc: true})
+		plan = append(plan, core.Batch{Name: fmt.Sprintf("concurrent/%d", c), N: per, Params: p, Timeout: 900})
+	}
 	return plan
 }
 
@@ -289,6 +302,36 @@ func (prop) Child(b core.Batch, o *core.Obs) {
 		}
 		if p.Socket {
 			time.Sleep(150 * time.Millisecond) // listeners are opened synchronously in Run before Accept; give Run time to get there
+		}
+		if p.Conc {
+			// all probes at once; calls are attributed to a probe by its client address
+			lab.Stubs.Reset()
+			obs := make([]probeObs, len(sc.Probes))
+			var wg sync.WaitGroup
+			for i, pr := range sc.Probes {
+				wg.Add(1)
+				go func(i int, pr probe) {
+					defer wg.Done()
+					obs[i] = runMemProbe(srv, pr, k, i)
+				}(i, pr)
+			}
+			wg.Wait()
+			time.Sleep(10 * time.Millisecond)
+			calls := lab.Stubs.Snapshot()
+			rip := fmt.Sprintf("203.0.%d.%d", (k/200)%200+1, k%200+1)
+			for i := range sc.Probes {
+				obs[i].I = i
+				want := fmt.Sprintf("%s:%d", rip, 3000+i)
+				for _, c := range calls {
+					if c.Remote == want {
+						obs[i].Calls = append(obs[i].Calls, callObs{Stub: c.Stub, Hex: hex.EncodeToString(c.Data), Done: c.Done})
+					}
+				}
+				o.EmitX("probe", obs[i])
+			}
+			srv.Stop()
+			o.End(k)
+			continue
 		}
 		for i, pr := range sc.Probes {
 			lab.Stubs.Reset()
@@ -420,6 +463,9 @@ func (prop) Judge(b core.Batch, recs []core.Rec, exits []core.Exit) []core.Resul
 			mode := "mem"
 			if p.Socket {
 				mode = "socket"
+			}
+			if p.Conc {
+				mode = "concurrent"
 			}
 			if strings.HasPrefix(ob.Err, "dial:") {
 				// nothing listening there: admissible only if no entry is effective for it
